@@ -526,16 +526,45 @@ structure Fin where
   items : List Item
 deriving Repr, DecidableEq
 
-/-- the pipeline of a rule: anonymous authenticator, a `cel` authorizer with the given expressions (if any),
-    finalizers -/
+/-- the pipeline of a rule: an authenticator (`anonymous`, or — `authn = false` — `unauthorized`, which rejects every
+    request), a `cel` authorizer with the given expressions (if any), optionally (`comm`) a `generic` contextualizer
+    whose endpoint nobody listens on, finalizers -/
 structure Pipe where
   authz : List Cond
   fins  : List Fin
+  authn : Bool := true
+  comm  : Bool := false
 deriving Repr, DecidableEq
 
 inductive Dec where
-  | ok | norule | argument | authorization | internal
+  | ok | norule | argument | authentication | authorization | communication | internal
 deriving Repr, DecidableEq
+
+/-- `serve.<service>.respond.with.<class>.code` (0: not configured); one block for the decision and the proxy
+    service, the Envoy gRPC service is configured by the block of the decision service -/
+structure Respond where
+  accepted       : Nat := 0
+  argument       : Nat := 0
+  authentication : Nat := 0
+  authorization  : Nat := 0
+  communication  : Nat := 0
+  internal       : Nat := 0
+  norule         : Nat := 0
+deriving Repr, DecidableEq
+
+def orDefault (configured dflt : Nat) : Nat := if configured = 0 then dflt else configured
+
+/-- the HTTP status an error class is answered with — status of the response of the decision and the proxy service
+    (`errorhandler.New(With…ErrorCode(…))` of `decision/service.go`, `proxy/service.go`), status of the
+    `DeniedHttpResponse` of the Envoy gRPC service (`grpcv3/service.go`) -/
+def Respond.code (r : Respond) : Dec → Nat
+  | .ok => 200
+  | .norule => orDefault r.norule 404
+  | .argument => orDefault r.argument 400
+  | .authentication => orDefault r.authentication 401
+  | .authorization => orDefault r.authorization 403
+  | .communication => orDefault r.communication 502
+  | .internal => orDefault r.internal 500
 
 /-- `celAuthorizer.Execute`: expressions in order; `false` ⇒ authorization error, evaluation error ⇒ internal error -/
 def runAuthz (o : ReqObj) (F : Funcs) : List Cond → Option Dec
@@ -581,9 +610,10 @@ structure Cfg where
   pipes      : List ((String × String) × Pipe)   -- (rule-set source, rule id) ↦ pipeline
   defaultPipe : Pipe
   D          : Decoder
+  respond    : Respond := {}
 
 def Cfg.pipeOf (cfg : Cfg) (key : String × String) : Pipe :=
-  ((cfg.pipes.find? fun kv => kv.1 == key).map (·.2)).getD ⟨[], []⟩
+  ((cfg.pipes.find? fun kv => kv.1 == key).map (·.2)).getD { authz := [], fins := [] }
 
 /-- what a mechanism executed after the authenticator is shown -/
 structure Seen where
@@ -606,11 +636,14 @@ def prelude (esh : SlashHandling) (o : ReqObj) : ReqObj × Bool :=
 
 /-- the mechanisms of the pipeline after the authenticator; each one calls `ctx.Request()` -/
 def runPipe (F : Funcs) (pipe : Pipe) (isDefault : Bool) (c : Ctx) : Ran :=
+  -- the `unauthorized` authenticator ends the pipeline before any other mechanism runs
+  if !pipe.authn then { dec := .authentication, isDefault, ctx := c } else
   let o := c.current
   let seen : Seen := { obj := o, stable := c.caches }
   match runAuthz o F pipe.authz with
   | some d => { dec := d, isDefault, seen := some seen, ctx := c }
   | none =>
+    if pipe.comm then { dec := .communication, isDefault, seen := some seen, ctx := c } else
     match runFins F pipe.fins c with
     | (c4, some d) => { dec := d, isDefault, seen := some seen, ctx := c4 }
     | (c4, none) => { dec := .ok, isDefault, seen := some seen, ctx := c4 }
@@ -640,23 +673,38 @@ def execute (cfg : Cfg) (F : Funcs) (c0 : Ctx) : Ran :=
 /-- what the caller of the entry point observes -/
 structure Outcome where
   dec       : Dec
+  status    : Nat                      -- HTTP status of the answer (Envoy: of the denied response; 200 for OK)
   seen      : Option Seen
   upHeaders : List (Bytes × Bytes)     -- header name ↦ value handed to the upstream side
   upCookies : List (Bytes × Bytes)
+  upSees    : List (Bytes × Bytes)     -- the headers the upstream application is shown (a Go map)
+
+/-- The headers the upstream application is shown: the header lines of the client, a header handed over by the
+    pipeline *replacing* the lines of that name. This is `proxyReq.Out.Header.Set` on the clone of the incoming
+    headers in the proxy service, what an API gateway does with the response headers of the decision service, and
+    what Envoy does with the `OkHttpResponse.headers` options (`append` not set). -/
+def overrideHeaders (client handed : List (Bytes × Bytes)) : List (Bytes × Bytes) :=
+  handed ++ client.filter fun kv => !handed.any fun h => h.1 = kv.1
+
+/-- the status of a positive answer: `respond.with.accepted.code` applies to the decision service; the proxy relays
+    the answer of the upstream (200 here), Envoy is told OK -/
+def okStatus (R : Respond) (ep : EP) : Nat := if ep = .decision then orDefault R.accepted 200 else 200
 
 /-- `Finalize` of the three request contexts. The decision and the proxy service hand over the first value of
     each header (`uh.Get(k)`), the Envoy service all values joined by a comma; the proxy service needs an upstream,
     which the default rule does not have. -/
-def finalize (ep : EP) (r : Ran) : Outcome :=
+def finalize (R : Respond) (client : List (Bytes × Bytes)) (ep : EP) (r : Ran) : Outcome :=
+  let refused (d : Dec) : Outcome :=
+    { dec := d, status := R.code d, seen := r.seen, upHeaders := [], upCookies := [], upSees := [] }
   match r.dec with
   | .ok =>
-    if ep = .proxy && r.isDefault then { dec := .internal, seen := r.seen, upHeaders := [], upCookies := [] }
+    if ep = .proxy && r.isDefault then refused .internal
     else
-      { dec := .ok, seen := r.seen,
-        upHeaders := r.ctx.ups.headers.map fun kv =>
-          (kv.1, if ep = .envoy then join comma kv.2 else kv.2.head?.getD []),
-        upCookies := r.ctx.ups.cookies }
-  | d => { dec := d, seen := r.seen, upHeaders := [], upCookies := [] }
+      let handed := r.ctx.ups.headers.map fun kv =>
+        (kv.1, if ep = .envoy then join comma kv.2 else kv.2.head?.getD [])
+      { dec := .ok, status := okStatus R ep, seen := r.seen, upHeaders := handed, upCookies := r.ctx.ups.cookies,
+        upSees := overrideHeaders client handed }
+  | d => refused d
 
 /-- the request context an entry point creates for the logical request, with its view functions;
     `none`: `net/http` rejects the request itself -/
@@ -664,18 +712,20 @@ structure Entry where
   ctx        : Ctx
   funcs      : Funcs
   headersMap : List (Bytes × Bytes)     -- `Request.Headers()`
+  client     : List (Bytes × Bytes)     -- the header lines of the client as the entry point holds them
 
 def mkCtx (I : Impl) (D : Decoder) (packAsBytes : Bool) (ep : EP) (lr : LReq) : Option Entry :=
   match ep with
   | .envoy =>
     let c := toCheck packAsBytes lr
     some { ctx := { caches := I.cachesView, fresh := envoyObj I c }, funcs := envoyFuncs I D c,
-           headersMap := envoyHeaders c }
+           headersMap := envoyHeaders c, client := envoyHeaders c }
   | _ => (toHTTP lr).map fun r =>
-    { ctx := { caches := true, fresh := httpObj r }, funcs := httpFuncs D r, headersMap := httpHeadersMap r }
+    { ctx := { caches := true, fresh := httpObj r }, funcs := httpFuncs D r, headersMap := httpHeadersMap r,
+      client := (stripUntrusted r.header).map fun kv => (canonKey kv.1, join comma kv.2) }
 
 /-- one logical request through one entry point -/
 def serve (I : Impl) (cfg : Cfg) (packAsBytes : Bool) (ep : EP) (lr : LReq) : Option Outcome :=
-  (mkCtx I cfg.D packAsBytes ep lr).map fun e => finalize ep (execute cfg e.funcs e.ctx)
+  (mkCtx I cfg.D packAsBytes ep lr).map fun e => finalize cfg.respond e.client ep (execute cfg e.funcs e.ctx)
 
 end Heimdall.EntryView
